@@ -27,6 +27,7 @@ LENSES = {
     "C05": "c05",
     "C06": "c06",
     "C07": "c07",
+    "C12": "c12",
     "C17": "c17",
 }
 
